@@ -146,6 +146,18 @@ func (s *Sim) taintOf(msg string) string {
 				apps[id] = true
 			}
 		}
+		// applications the core no longer has: where the shim knows they ran
+		for id := range t {
+			if a := s.shim.Apps[id]; a != nil {
+				q := s.appQueue(id)
+				if q == "" {
+					q = a.Queue
+				}
+				if q == m[1] || strings.HasPrefix(q, m[1]+".") {
+					apps[id] = true
+				}
+			}
+		}
 		for _, snap := range []*Snap{s.pre, s.post} {
 			if snap == nil {
 				continue
